@@ -89,6 +89,20 @@ func init() {
 				parse([]byte(v[:pos]), 0, "s")
 			}
 		}
+		// letters outside ASCII that unicode-aware case mapping relates to roman letters or digits
+		for wi, w := range []string{"I", "XIV", "MCMXCIX", "mmxxiv", "D"} {
+			if !d.Mine(wi) {
+				continue
+			}
+			for _, cf := range confusables {
+				for pos := 0; pos <= len(w); pos++ {
+					parse([]byte(w[:pos]+cf+w[pos:]), 0, "s")
+					if pos < len(w) {
+						parse([]byte(w[:pos]+cf+w[pos+1:]), 0, "b")
+					}
+				}
+			}
+		}
 		// all case patterns of a few numerals
 		for wi, w := range []string{"MCMXCIV", "CDXLIV", "DCLXVI", "XLIX"} {
 			if !d.Mine(wi) {
